@@ -113,6 +113,13 @@ def resolve_call(repo, fi, call, dynamic=True):
     role = _role(repo, fi, p)
     if role:
         return _class_targets(repo, role, meth, dynamic)
+    # a local bound once to `ClassName(...)`: calls go to that class
+    if isinstance(recv, ast.Name):
+        v = al.single_assign.get(recv.id)
+        if isinstance(v, ast.Call):
+            cn = (dotted(v.func) or '').split('.')[-1]
+            if cn in repo.classes:
+                return _class_targets(repo, cn, meth, dynamic=False)
     return []
 
 
